@@ -349,7 +349,7 @@ func (e *env) secSerial() {
 				}
 			}
 		}
-		c.AddExtra(N+".vk-uses", int64(s.uses))
+		noteStat("verifications_through_shared_key_objects", N, float64(s.uses))
 	}
 }
 
